@@ -156,7 +156,13 @@ pub fn generate(rng: &mut Rng) -> Trace {
     let cores = rng.range(1, 4) as u32;
     let trees = rng.range(1, 3);
     let managed = trees * crate::model::TREE_FRAMES;
-    let max_pfn = (managed - 1 - if rng.chance(1, 2) { rng.below(HUGE_FRAMES) } else { 0 }) as u32;
+    let max_pfn = (managed
+        - 1
+        - if rng.chance(1, 2) {
+            rng.below(HUGE_FRAMES)
+        } else {
+            0
+        }) as u32;
     let n = rng.range(3, 60);
     let mut events = Vec::new();
     // live blocks (after splits) the kernel may free
@@ -171,10 +177,15 @@ pub fn generate(rng: &mut Rng) -> Trace {
             break;
         }
         let core = rng.below(cores as usize) as u32;
-        let flags = if rng.chance(1, 2) { 0x08 } else { *rng.pick(&[0u32, 0x10, 0x100, 0x1000_0000]) };
+        let flags = if rng.chance(1, 2) {
+            0x08
+        } else {
+            *rng.pick(&[0u32, 0x10, 0x100, 0x1000_0000])
+        };
         let pid = rng.below(5000) as u32;
         let in_use = used.iter().filter(|u| **u).count();
-        let do_alloc = live.is_empty() || (in_use * 3 < managed && rng.chance(if mode == 1 { 2 } else { 3 }, 6));
+        let do_alloc = live.is_empty()
+            || (in_use * 3 < managed && rng.chance(if mode == 1 { 2 } else { 3 }, 6));
         if do_alloc {
             let order = match mode {
                 2 => rng.below(3),
@@ -197,12 +208,28 @@ pub fn generate(rng: &mut Rng) -> Trace {
             let Some(f) = found else { continue };
             used[f..f + len].iter_mut().for_each(|u| *u = true);
             live.push(Block::new(f, order));
-            events.push(Event { t_ms: t, core, alloc: true, pfn: f as u32, order: order as u8, flags, pid });
+            events.push(Event {
+                t_ms: t,
+                core,
+                alloc: true,
+                pfn: f as u32,
+                order: order as u8,
+                flags,
+                pid,
+            });
         } else if rng.chance(1, 12) {
             // free of a pfn the trace never allocated
             let f = rng.range(1, max_pfn as usize);
             if !used[f] {
-                events.push(Event { t_ms: t, core, alloc: false, pfn: f as u32, order: 0, flags, pid });
+                events.push(Event {
+                    t_ms: t,
+                    core,
+                    alloc: false,
+                    pfn: f as u32,
+                    order: 0,
+                    flags,
+                    pid,
+                });
             }
         } else {
             let k = rng.below(live.len());
@@ -228,11 +255,25 @@ pub fn generate(rng: &mut Rng) -> Trace {
                 }
                 f += part.len();
             }
-            used[part.frame..part.end()].iter_mut().for_each(|u| *u = false);
-            events.push(Event { t_ms: t, core, alloc: false, pfn: part.frame as u32, order: part.order as u8, flags, pid });
+            used[part.frame..part.end()]
+                .iter_mut()
+                .for_each(|u| *u = false);
+            events.push(Event {
+                t_ms: t,
+                core,
+                alloc: false,
+                pfn: part.frame as u32,
+                order: part.order as u8,
+                flags,
+                pid,
+            });
         }
     }
-    Trace { cores, max_pfn, events }
+    Trace {
+        cores,
+        max_pfn,
+        events,
+    }
 }
 
 pub struct Verdict {
@@ -245,7 +286,11 @@ pub struct Verdict {
 pub fn judge(bin: &Path, trace: &Trace, file: &Path) -> Verdict {
     let expected = trace.managed() - trace.held_at_end();
     if let Err(e) = trace.write(file) {
-        return Verdict { sig: Some(("harness".into(), format!("cannot write trace: {e}"))), free_frames: None, expected };
+        return Verdict {
+            sig: Some(("harness".into(), format!("cannot write trace: {e}"))),
+            free_frames: None,
+            expected,
+        };
     }
     let out = Command::new(bin)
         .arg(file)
@@ -255,7 +300,13 @@ pub fn judge(bin: &Path, trace: &Trace, file: &Path) -> Verdict {
     let _ = std::fs::remove_file(file);
     let out = match out {
         Ok(o) => o,
-        Err(e) => return Verdict { sig: Some(("harness".into(), format!("cannot run {bin:?}: {e}"))), free_frames: None, expected },
+        Err(e) => {
+            return Verdict {
+                sig: Some(("harness".into(), format!("cannot run {bin:?}: {e}"))),
+                free_frames: None,
+                expected,
+            };
+        }
     };
     let stdout = String::from_utf8_lossy(&out.stdout);
     let stderr = String::from_utf8_lossy(&out.stderr);
@@ -268,19 +319,41 @@ pub fn judge(bin: &Path, trace: &Trace, file: &Path) -> Verdict {
         // nothing can be concluded from this trace
         Some(("inconclusive-oom".to_string(), String::new()))
     } else if !out.status.success() {
-        let line = stderr.lines().find(|l| l.contains("panicked") || l.contains("ERROR")).unwrap_or("").to_string();
-        Some(("replay-exit-status".to_string(), format!("replay exited with {}: {}", out.status, line.chars().take(300).collect::<String>())))
+        let line = stderr
+            .lines()
+            .find(|l| l.contains("panicked") || l.contains("ERROR"))
+            .unwrap_or("")
+            .to_string();
+        Some((
+            "replay-exit-status".to_string(),
+            format!(
+                "replay exited with {}: {}",
+                out.status,
+                line.chars().take(300).collect::<String>()
+            ),
+        ))
     } else if let Some(l) = stderr.lines().find(|l| l.contains("Free failed")) {
-        Some(("free-failed".to_string(), format!("replay logged: {}", l.chars().take(200).collect::<String>())))
+        Some((
+            "free-failed".to_string(),
+            format!("replay logged: {}", l.chars().take(200).collect::<String>()),
+        ))
     } else if free != Some(expected) {
         Some((
             "free-count-mismatch".to_string(),
-            format!("replay reports free_frames={free:?}, the trace holds {} of {} frames at its end, expected {expected}", trace.held_at_end(), trace.managed()),
+            format!(
+                "replay reports free_frames={free:?}, the trace holds {} of {} frames at its end, expected {expected}",
+                trace.held_at_end(),
+                trace.managed()
+            ),
         ))
     } else {
         None
     };
-    Verdict { sig, free_frames: free, expected }
+    Verdict {
+        sig,
+        free_frames: free,
+        expected,
+    }
 }
 
 fn minimise(bin: &Path, trace: &Trace, sig: &str, file: &Path) -> (Trace, usize) {
@@ -322,7 +395,12 @@ fn minimise(bin: &Path, trace: &Trace, sig: &str, file: &Path) -> (Trace, usize)
 }
 
 fn replay_bin() -> PathBuf {
-    PathBuf::from(std::env::var("LLSIM_REPLAY_BIN").unwrap_or_else(|_| root().join("sim/target/eval/release/replay").display().to_string()))
+    PathBuf::from(std::env::var("LLSIM_REPLAY_BIN").unwrap_or_else(|_| {
+        root()
+            .join("sim/target/eval/release/replay")
+            .display()
+            .to_string()
+    }))
 }
 
 /// `llsim replay` of a trace case
@@ -333,7 +411,11 @@ pub fn replay_trace(j: &J, file: &Path) -> i32 {
     };
     let tmp = root().join("sim/target/tmp");
     let _ = std::fs::create_dir_all(&tmp);
-    let v = judge(&replay_bin(), &trace, &tmp.join(format!("replay-{}.bin", std::process::id())));
+    let v = judge(
+        &replay_bin(),
+        &trace,
+        &tmp.join(format!("replay-{}.bin", std::process::id())),
+    );
     match v.sig {
         Some((s, d)) if s == j.gs("signature") => {
             println!("observed: property=C20 signature={s} :: {d}");
@@ -341,28 +423,42 @@ pub fn replay_trace(j: &J, file: &Path) -> i32 {
             1
         }
         Some((s, d)) => {
-            println!("not reproduced: expected {}, observed {s}: {d}", j.gs("signature"));
+            println!(
+                "not reproduced: expected {}, observed {s}: {d}",
+                j.gs("signature")
+            );
             if s == "harness" { 2 } else { 0 }
         }
         None => {
-            println!("not reproduced: free_frames={:?} expected {}", v.free_frames, v.expected);
+            println!(
+                "not reproduced: free_frames={:?} expected {}",
+                v.free_frames, v.expected
+            );
             0
         }
     }
 }
 
 pub fn check(tier: &str) -> i32 {
-    let seed: u64 = std::env::var("VERIF_SEED").ok().and_then(|s| s.parse().ok()).unwrap_or(DEFAULT_SEED);
+    let seed: u64 = std::env::var("VERIF_SEED")
+        .ok()
+        .and_then(|s| s.parse().ok())
+        .unwrap_or(DEFAULT_SEED);
     let runs: u64 = if tier == "thorough" { 40_000 } else { 1200 };
     let workers = 16u64;
     let bin = replay_bin();
-    println!("llsim check C20 tier={tier} VERIF_SEED={seed} traces={runs} binary={}", bin.display());
+    println!(
+        "llsim check C20 tier={tier} VERIF_SEED={seed} traces={runs} binary={}",
+        bin.display()
+    );
     if !bin.exists() {
         println!("HARNESS-ERROR: replay binary not built: {}", bin.display());
         return 2;
     }
     let start = Instant::now();
-    let tmp = root().join("sim/target/tmp").join(format!("C20-{}", std::process::id()));
+    let tmp = root()
+        .join("sim/target/tmp")
+        .join(format!("C20-{}", std::process::id()));
     let _ = std::fs::remove_dir_all(&tmp);
     std::fs::create_dir_all(&tmp).unwrap();
     struct Acc {
@@ -406,7 +502,12 @@ pub fn check(tier: &str) -> i32 {
                                 let b = Block::new(e.pfn as usize, e.order as usize);
                                 if e.alloc {
                                     held.insert(e.pfn, b);
-                                } else if let Some(hb) = held.range(..=e.pfn).next_back().map(|(_, h)| *h).filter(|h| h.contains(&b)) {
+                                } else if let Some(hb) = held
+                                    .range(..=e.pfn)
+                                    .next_back()
+                                    .map(|(_, h)| *h)
+                                    .filter(|h| h.contains(&b))
+                                {
                                     if hb != b {
                                         n += 1;
                                     }
@@ -419,15 +520,23 @@ pub fn check(tier: &str) -> i32 {
                             n
                         };
                         *a.counters.entry("events").or_default() += trace.events.len() as u64;
-                        *a.counters.entry("alloc_events").or_default() += trace.events.iter().filter(|e| e.alloc).count() as u64;
-                        *a.counters.entry("free_events").or_default() += trace.events.iter().filter(|e| !e.alloc).count() as u64;
+                        *a.counters.entry("alloc_events").or_default() +=
+                            trace.events.iter().filter(|e| e.alloc).count() as u64;
+                        *a.counters.entry("free_events").or_default() +=
+                            trace.events.iter().filter(|e| !e.alloc).count() as u64;
                         *a.counters.entry("partial_free_events").or_default() += partial;
-                        *a.counters.entry("multi_core_traces").or_default() += (trace.cores > 1) as u64;
+                        *a.counters.entry("multi_core_traces").or_default() +=
+                            (trace.cores > 1) as u64;
                         if trace.events.iter().any(|e| !e.alloc) {
                             a.hashes.insert(h.finish());
                         }
                         if w == 0 && a.samples.len() < 2 && partial > 0 {
-                            a.samples.push(trace.to_json().set("replay_free_frames", v.free_frames).set("expected_free_frames", v.expected));
+                            a.samples.push(
+                                trace
+                                    .to_json()
+                                    .set("replay_free_frames", v.free_frames)
+                                    .set("expected_free_frames", v.expected),
+                            );
                         }
                         if let Some((sig, detail)) = v.sig {
                             if sig == "inconclusive-oom" {
@@ -484,7 +593,10 @@ pub fn check(tier: &str) -> i32 {
     let mut known_lines = Vec::new();
     for (sig, (count, index, detail, trace)) in &found {
         if let Some(k) = known.matches("C20", sig) {
-            known_lines.push(format!("KNOWN-FINDING: property=C20 {} [signature {sig}, seen in {count} traces]", k.gs("what")));
+            known_lines.push(format!(
+                "KNOWN-FINDING: property=C20 {} [signature {sig}, seen in {count} traces]",
+                k.gs("what")
+            ));
             continue;
         }
         let (small, tries) = minimise(&bin, trace, sig, &tmp.join("min.bin"));
@@ -511,7 +623,10 @@ pub fn check(tier: &str) -> i32 {
             println!("  C20:{sig}: {detail} (seen in {count} traces)");
             println!("VIOLATION property=C20 replay={}", file.display());
         } else {
-            harness.push(format!("violation {sig} did not reproduce from {}", file.display()));
+            harness.push(format!(
+                "violation {sig} did not reproduce from {}",
+                file.display()
+            ));
         }
     }
     for l in &known_lines {
@@ -555,7 +670,11 @@ pub fn check(tier: &str) -> i32 {
     std::fs::create_dir_all(root().join("evidence")).unwrap();
     std::fs::write(root().join("evidence/C20.json"), ev.to_pretty()).unwrap();
     let _ = std::fs::remove_dir_all(&tmp);
-    println!("C20 {tier}: {evals} traces, {} distinct non-trivial, {wall:.1}s, violations={violations}, known={}", hashes.len(), known_lines.len());
+    println!(
+        "C20 {tier}: {evals} traces, {} distinct non-trivial, {wall:.1}s, violations={violations}, known={}",
+        hashes.len(),
+        known_lines.len()
+    );
     for e in &harness {
         println!("HARNESS-ERROR: {e}");
     }
